@@ -44,13 +44,10 @@ Tag(r) ==
       st0 == St0(r)
       alt0 == Resolve([d EXCEPT !.pre = -1])
       alt2 == ResolveWith(d, Mode2(d), Mode2(d))
-  IN IF d.pre # -1 /\ CoreD(r, alt0.ops, st0)[1] = "ok" THEN "aspre0"
-     ELSE IF d.pre # -1 /\ CoreD(r, alt2.ops, st0)[1] = "ok" THEN "assecond"
-     ELSE IF ImemEdge(st0, Resolve(d)) THEN "edge"
-     \* under that reading the instruction overwrites its own addressing registers, which the README leaves open
-     ELSE IF d.pre # -1 /\ SelfMod(st0, alt0) THEN "aspre0"
-     ELSE IF d.pre # -1 /\ SelfMod(st0, alt2) THEN "assecond"
-     ELSE ""
+      t1 == IF d.pre # -1 /\ (CoreD(r, alt0.ops, st0)[1] = "ok" \/ SelfMod(st0, alt0)) THEN <<"aspre0">> ELSE <<>>
+      t2 == IF d.pre # -1 /\ (CoreD(r, alt2.ops, st0)[1] = "ok" \/ SelfMod(st0, alt2)) THEN <<"assecond">> ELSE <<>>
+      t4 == IF ImemEdge(st0, Resolve(d)) THEN <<"edge">> ELSE <<>>
+  IN t1 \o t2 \o t4
 BadSet == {<<Obs[k].id, Verdicts[k][1], Verdicts[k][2], Tag(Obs[k])>> : k \in {j \in 1..Len(Obs) : Verdicts[j][1] \notin {"ok", "unspec", "RefAccept"}}}
 Skipped == {<<Obs[k].id, Verdicts[k][1]>> : k \in {j \in 1..Len(Obs) : Verdicts[j][1] \in {"unspec", "RefAccept"}}}
 ASSUME PrintT(<<"JUDGE", Len(Obs), BadSet, Skipped>>)
